@@ -125,7 +125,7 @@ func c17Batch(t *rapid.T, regime int) C17Batch {
 func c17Gen(t *rapid.T) C17Case {
 	c := C17Case{}
 	c.Kind = pick(t, "kind", "keys", "hash", "set")
-	c.Salt = pick(t, "salt", c17Salts...)
+	c.Salt = pick(t, "salt", c17GoodSalts()...)
 	regime := rapid.IntRange(0, 2).Draw(t, "regime")
 	minStable := 8
 	if rapid.IntRange(0, 7).Draw(t, "fewStable") == 0 {
@@ -885,4 +885,121 @@ func c17KeysOf(m map[string]bool) []string {
 
 func TestC17(t *testing.T) {
 	kit.Check(t, kit.Prop[C17Case]{ID: "C17", Gen: c17Gen, Run: c17Run})
+}
+
+// ---- part B: the collection becomes empty (or is replaced) in the middle of an iteration -------------------
+
+type C17BCase struct {
+	Kind   string `json:"kind"` // keys, hash, set
+	N      int    `json:"n"`
+	Count  int    `json:"count"`
+	Calls  int    `json:"calls"`  // calls made before the collection is emptied
+	How    int    `json:"how"`    // 0 delete every element one by one, 1 DEL of the container / FLUSHDB, 2 FLUSHALL, 3 expire the container
+	Refill int    `json:"refill"` // new elements added right after emptying
+	Salt   int    `json:"salt"`
+}
+
+func c17BGen(t *rapid.T) C17BCase {
+	return C17BCase{Kind: pick(t, "kind", "keys", "hash", "set"), N: rapid.IntRange(12, 90).Draw(t, "n"), Count: pick(t, "count", 1, 2, 3, 5), Calls: rapid.IntRange(1, 6).Draw(t, "calls"),
+		How: rapid.IntRange(0, 3).Draw(t, "how"), Refill: pick(t, "refill", 0, 0, 1, 5, 30), Salt: pick(t, "salt", c17GoodSalts()...)}
+}
+
+func c17BRun(c C17BCase, st *kit.Stats) error {
+	emu := kit.StartEmu("")
+	defer emu.Stop()
+	conn := emu.Dial()
+	name := func(p string, i int) string { return fmt.Sprintf("%s%d.%d", p, i, c.Salt) }
+	scan := func(cur string) []string {
+		switch c.Kind {
+		case "hash":
+			return []string{"HSCAN", "box", cur, "COUNT", strconv.Itoa(c.Count)}
+		case "set":
+			return []string{"SSCAN", "box", cur, "COUNT", strconv.Itoa(c.Count)}
+		}
+		return []string{"SCAN", cur, "COUNT", strconv.Itoa(c.Count)}
+	}
+	add := func(p string, i int) {
+		switch c.Kind {
+		case "hash":
+			conn.Do("HSET", "box", name(p, i), "v")
+		case "set":
+			conn.Do("SADD", "box", name(p, i))
+		default:
+			conn.Do("SET", name(p, i), "v")
+		}
+	}
+	for i := 0; i < c.N; i++ {
+		add("s", i)
+	}
+	cursor := "0"
+	for i := 0; i < c.Calls; i++ {
+		v, err := conn.Do(scan(cursor)...)
+		if err != nil || v.K != kit.KArr || len(v.A) != 2 {
+			return fmt.Errorf("%v: %v %v", scan(cursor), v, err)
+		}
+		cursor = v.A[0].S
+		if cursor == "0" {
+			return nil // iteration finished before the collection could be emptied
+		}
+	}
+	// empty the collection
+	switch c.How {
+	case 0:
+		for i := 0; i < c.N; i++ {
+			switch c.Kind {
+			case "hash":
+				conn.Do("HDEL", "box", name("s", i))
+			case "set":
+				conn.Do("SREM", "box", name("s", i))
+			default:
+				conn.Do("DEL", name("s", i))
+			}
+		}
+	case 1:
+		if c.Kind == "keys" {
+			conn.Do("FLUSHDB")
+		} else {
+			conn.Do("DEL", "box")
+		}
+	case 2:
+		conn.Do("FLUSHALL")
+	default:
+		if c.Kind == "keys" {
+			for i := 0; i < c.N; i++ {
+				conn.Do("PEXPIREAT", name("s", i), "1000000000000")
+			}
+		} else {
+			conn.Do("PEXPIREAT", "box", "1000000000000")
+		}
+	}
+	for i := 0; i < c.Refill; i++ {
+		add("r", i)
+	}
+	st.Class(fmt.Sprintf("emptied-by:%d", c.How))
+	// the iteration must still end, and may only return elements that exist now
+	for i := 0; i < c.N*4+200; i++ {
+		v, err := conn.Do(scan(cursor)...)
+		if err != nil || v.K != kit.KArr || len(v.A) != 2 {
+			return fmt.Errorf("%v after the collection was emptied: %v %v", scan(cursor), v, err)
+		}
+		step := 1
+		if c.Kind == "hash" {
+			step = 2
+		}
+		for j := 0; j < len(v.A[1].A); j += step {
+			if e := v.A[1].A[j].S; !strings.HasPrefix(e, "r") {
+				return fmt.Errorf("%v returned %q, which was removed before this call", scan(cursor), e)
+			}
+		}
+		cursor = v.A[0].S
+		if cursor == "0" {
+			st.NonTrivial(fmt.Sprintf("%+v", c), c)
+			return nil
+		}
+	}
+	return fmt.Errorf("the collection was emptied in the middle of an iteration (%d elements, emptied after %d calls, %d refilled); feeding the cursor back %d more times never returned 0 (stuck at %s)", c.N, c.Calls, c.Refill, c.N*4+200, cursor)
+}
+
+func TestC17B(t *testing.T) {
+	kit.Check(t, kit.Prop[C17BCase]{ID: "C17B", Gen: c17BGen, Run: c17BRun})
 }
